@@ -16,6 +16,10 @@ func scenarios(quick bool) []sigh.Scen {
 		{"foreign-key", [][]string{{"attach:a1:A:B", "wait", "sendas:a1:m1:C"}, {"attach:b1:B:A"}}},
 		{"tampered", [][]string{{"attach:a1:A:B", "wait", "sendbad:a1:m1", "send:a1:m2"}, {"attach:b1:B:A"}}},
 		{"claims-partner", [][]string{{"attach:a1:A:B", "wait", "sendclaim:a1:m1:B"}, {"attach:b1:B:A"}}},
+		// a forgery that re-uses the message seqno of an authentic message the same call sent before
+		{"authentic-then-forged-same-seqno", [][]string{{"attach:a1:A:B", "wait", "send:a1:m1", "wait", "sendas=:a1:f1:C"}, {"attach:b1:B:A"}}},
+		{"authentic-then-tampered-same-seqno", [][]string{{"attach:a1:A:B", "wait", "send:a1:m1", "sendbad=:a1:f2"}, {"attach:b1:B:A", "wait", "ack:b1:last"}}},
+		{"authentic-then-claim-same-seqno", [][]string{{"attach:a1:A:B", "wait", "send:a1:m1", "sendclaim=:a1:f3:B"}, {"attach:b1:B:A"}}},
 		{"future-epoch", [][]string{{"attach:a1:A:B", "sende:a1:m1:3"}, {"attach:b1:B:A"}}},
 		{"stale-then-current", [][]string{{"attach:a1:A:B", "sende:a1:m1:1", "sende:a1:m2:2"}, {"attach:b1:B:A"}}},
 		{"no-init", [][]string{{"noinit:a1:A:B"}, {"attach:b1:B:A"}}},
